@@ -89,6 +89,9 @@ def run_c10(ctx):
     report(ctx, v3, "C10", "then()-series under real threads")
     race, v4 = run_sched(ctx, "c15-helper-race", b["stress"] * 4)
     report(ctx, v4, "C10", "helper creation race")
+    # composite single-use / repeatable return shapes requested by several threads (enumerated schedules)
+    shp, v5 = run_sched(ctx, "c12", 160 if ctx.tier == "quick" else 4000)
+    report(ctx, v5, "C10", "return shapes under controlled schedules")
     ctx.require(ser["stats"].get("series_calls", 0) > 0 and race["stats"].get("delegated_calls", 0) > 0,
                 "series / helper-race stress made no calls")
     # gates
@@ -100,7 +103,8 @@ def run_c10(ctx):
         ctx.require(any(f in s for s in ctl["sites"]), f"no yield point in {f} was reached")
     ctx.require(st["stats"].get("stress_calls", 0) > 0, "stress made no calls")
     ctx.coverage.update({
-        "evaluations": ctl["executions"] + st["executions"] + ser["executions"] + race["executions"],
+        "evaluations": ctl["executions"] + st["executions"] + ser["executions"] + race["executions"] + shp["executions"],
+        "return_shape_executions": shp["executions"],
         "series_stress": {"executions": ser["executions"], "calls": ser["stats"].get("series_calls", 0)},
         "helper_race": {"rounds": race["executions"], "calls": race["stats"].get("delegated_calls", 0)},
         "distinct_nontrivial": ctl["distinct_schedules"] + st["distinct_cases"],
